@@ -217,6 +217,8 @@ class SpecEval:
         self.facts.extend(O.facts_for_card(a))
         self.facts.extend(O.facts_for_card(b))
         self.facts.append(z3.Implies(O.set_subset(a, b), V.set_card(a) <= V.set_card(b)))
+        # ... and a subset of the same (finite) size is the whole set
+        self.facts.append(z3.Implies(z3.And(O.set_subset(a, b), V.set_card(a) == V.set_card(b)), a.t == b.t))
         return V.mk_bool(True)
 
     def fn_disjoint(self, node):
